@@ -371,11 +371,30 @@ func applyDefect(r *rand.Rand, c *gen.PI, first bool) (Defect, bool) {
 		}
 	case "undeclared-type":
 		vs := plainVars(c)
+		// a meta()-backed variable goes through the same per-type parsing once its metadata is found
+		for i, v := range c.Prog.Vars {
+			if v.Fn == "meta" && len(v.Args) == 2 && v.Args[0].K == "acc" && v.Args[1].K == "str" {
+				if _, ok := c.In.Meta[v.Args[0].S][v.Args[1].S]; ok {
+					vs = append(vs, i)
+				}
+			}
+		}
 		if len(vs) == 0 {
-			return d, false
+			// declare one on the spot, half of the time metadata-backed
+			if r.IntN(2) == 0 {
+				c.Prog.Vars = append(c.Prog.Vars, gen.VarDecl{Type: "number", Name: "zz_ut"})
+				c.In.Vars["zz_ut"] = "1"
+			} else {
+				c.Prog.Vars = append(c.Prog.Vars, gen.VarDecl{Type: "number", Name: "zz_ut", Fn: "meta", Args: []gen.Expr{*gen.Acc("a"), *gen.Str("zz_key")}})
+				if c.In.Meta["a"] == nil {
+					c.In.Meta["a"] = map[string]string{}
+				}
+				c.In.Meta["a"]["zz_key"] = "1"
+			}
+			vs = []int{len(c.Prog.Vars) - 1}
 		}
 		i := vs[r.IntN(len(vs))]
-		if _, ok := c.In.Vars[c.Prog.Vars[i].Name]; !ok {
+		if _, ok := c.In.Vars[c.Prog.Vars[i].Name]; !ok && c.Prog.Vars[i].Fn == "" {
 			return d, false
 		}
 		c.Prog.Vars[i].Type = core.Pick(r, []string{"money", "int", "foo", "accounts"})
